@@ -439,6 +439,28 @@ func (p *c20) Exec(ctx core.Ctx, cc any) core.Obs {
 			}
 		}
 	}
+	if c.Load && err == nil && !bytes.HasPrefix(src, []byte("---")) && utf8.Valid(src) {
+		// the same document with a front-matter block in front: the body is the document
+		for _, fm := range []string{"---\ntitle: T\n---\n", "---\ntitle: \"a --- b\"\n---\n\n"} {
+			fsys := fstestBytes(map[string][]byte{"fm.md": append([]byte(fm), src...)})
+			d, lerr := markdown.New(fsys).Load("fm.md")
+			o.Evals++
+			if lerr != nil {
+				rep.fail("render-error/Load/"+c20ErrClass(lerr), "Load of a file with front-matter returned an error: %v\nsource: %q", lerr, clip(fm+string(src), 600))
+				continue
+			}
+			var b3 bytes.Buffer
+			if rerr := d.Render(&b3); rerr != nil {
+				rep.fail("render-error/Document.Render/"+c20ErrClass(rerr), "Document.Render returned an error: %v\nsource: %q", rerr, clip(fm+string(src), 600))
+				continue
+			}
+			if w, g := oracle.Parse(out, false), oracle.Parse(b3.String(), false); w.Canon() != g.Canon() {
+				rep.fail("load/front-matter-changes-the-body", "the document rendered from a file with a front-matter block differs from the document alone: %v\nfile: %q\nwith front-matter: %q\nalone: %q", oracle.Diff(w, g, nil), clip(fm+string(src), 400), clip(b3.String(), 500), clip(out, 500))
+			} else {
+				o.Cell("load/front-matter-block-judged")
+			}
+		}
+	}
 	if c.Part == "bytes" {
 		o.Cell("bytes/" + c.Fam)
 		if c.Load {
